@@ -181,6 +181,35 @@ pub fn run_decode(a: &Args, out: &mut Out) {
         corruptions::<G1>(&mut rng, &pool, out, thorough);
         corruptions::<G2>(&mut rng, &pool, out, thorough);
     }
+    // order-r points of OTHER curves y^2 = x^3 + b' (the group formulas never use b, so [r]P = O holds for them):
+    // a valid point rescaled to (l^2 x, l^3 y), and a G1 point embedded in Fq2 coordinates
+    for i in 0..(if thorough { 12 } else { 4 }) {
+        let p1 = valid_point::<G1>(&mut rng, &pool);
+        let p2 = valid_point::<G2>(&mut rng, &pool);
+        let (a1, a2) = (AffineG1::from_jacobian(p1).unwrap(), AffineG2::from_jacobian(p2).unwrap());
+        let l = Fq::from_slice(&[2 + i as u8]).unwrap();
+        let (l2, l3) = (l * l, l * l * l);
+        let mut w1 = (a1.x() * l2).to_slice().to_vec();
+        w1.extend_from_slice(&(a1.y() * l3).to_slice());
+        let (lx, ly) = (Fq2::new(l2, Fq::zero()), Fq2::new(l3, Fq::zero()));
+        let mut w2 = (a2.x() * lx).to_slice().to_vec();
+        w2.extend_from_slice(&(a2.y() * ly).to_slice());
+        // G1 point embedded as (x + 0u, y + 0u): on y^2 = x^3 + 5, not on the twist
+        let mut e2 = vec![0u8; 32];
+        e2.extend_from_slice(&a1.x().to_slice());
+        e2.extend_from_slice(&[0u8; 32]);
+        e2.extend_from_slice(&a1.y().to_slice());
+        decode_ev::<G1>(out, "raw", &w1);
+        for w in [&w2, &e2] {
+            decode_ev::<G2>(out, "raw", w);
+            let mut u = vec![4u8];
+            u.extend_from_slice(w);
+            decode_ev::<G2>(out, "unc", &u);
+            let mut c = vec![2 + (w[127] & 1)];
+            c.extend_from_slice(&w[..64]);
+            decode_ev::<G2>(out, "cmp", &c);
+        }
+    }
     // random x-coordinates with both compressed prefixes (about half carry a point)
     let n = if thorough { 200 } else { 30 };
     for i in 0..n {
